@@ -107,8 +107,10 @@ class TaskGroupContext:
         cancelled_parent: bool = self._cancelled_parent
         # cancellation requested by the group itself before (one of its tasks failed when
         # running the body) is taken back by the group when its exit begins
-        cancelling: int = (task.cancelling() if task is not None else 0) - (
-            1 if cancelled_parent else 0
+        # (unless it was taken back already by the body handling that cancellation)
+        cancelling: int = max(
+            (task.cancelling() if task is not None else 0) - (1 if cancelled_parent else 0),
+            0,
         )
 
         try:
@@ -126,7 +128,10 @@ class TaskGroupContext:
             # cancellation was requested from the outside meanwhile it got dropped by the group,
             # do not lose it. Cancellation requested by the group itself when exiting already
             # (one of its tasks failed then) is never taken back by the group - do not count it
-            requested: int = 1 if self._cancelled_parent and not cancelled_parent else 0
+            # (never when exiting with an exception - the group is aborting from the start then)
+            requested: int = (
+                1 if exc_type is None and self._cancelled_parent and not cancelled_parent else 0
+            )
             if task is not None and task.cancelling() - requested > cancelling:
                 raise CancelledError() from None
 
